@@ -30,6 +30,9 @@ RULE = ("random operation histories (length 12-50) over {create environment / en
         " Histories also contain compiles that are rejected half-way through a literal, number, bracket or call (34 fixed strings and random damage to earlier queries), iterators abandoned half-way, live iterators that are finished several operations later, and match/search queries whose patterns are valid, invalid or non-strings, literal or taken from the data.")
 ASSUMPTIONS = ["solitary run of the same real code is the oracle (deliberately not the RFC model, so C14 is independent of semantic findings)",
                "registering on jsonpath_rfc9535.DEFAULT_ENV legitimately changes the module-level functions and is therefore not part of the histories"]
+# no copies of compiled queries here: a deep copy carries its own copy of the environment, which legitimately does not follow
+# later re-registrations on the original (the histories of this check re-register functions)
+HOST_CONDITIONS = (0.01, 0.01, 0.0)
 DECIDING_MONITORS = ["M-call", "M-solitary"]
 
 FUNC_KINDS = {
@@ -38,7 +41,15 @@ FUNC_KINDS = {
     "seven": ((), V),         # constant 7
     "cnt": ((N,), V),         # number of nodes
     "any": ((L,), L),         # identity on logical
+    # same signatures, other behaviour (a name can be re-registered with one of these without invalidating compiled queries)
+    "ident_b": ((V,), V),     # 1 for every argument
+    "isstr_b": ((V,), L),     # is the argument NOT a string
+    "seven_b": ((), V),       # constant 8
+    "cnt_b": ((N,), V),       # number of nodes + 1
+    "any_b": ((L,), L),       # negation
 }
+SIBLING = {"ident": "ident_b", "isstr": "isstr_b", "seven": "seven_b", "cnt": "cnt_b", "any": "any_b",
+           "ident_b": "ident", "isstr_b": "isstr", "seven_b": "seven", "cnt_b": "cnt", "any_b": "any"}
 
 
 def func_impl(kind):
@@ -50,6 +61,16 @@ def func_impl(kind):
         return lambda: 7
     if kind == "cnt":
         return lambda ns: len(ns)
+    if kind == "ident_b":
+        return lambda x: 1
+    if kind == "isstr_b":
+        return lambda x: not isinstance(x, str)
+    if kind == "seven_b":
+        return lambda: 8
+    if kind == "cnt_b":
+        return lambda ns: len(ns) + 1
+    if kind == "any_b":
+        return lambda b: not b
     return lambda b: b
 
 
@@ -312,7 +333,7 @@ class History:
             cfg["funcs"] = dict(cfg["funcs"], **{name: kind})
             self.envs[i] = (env, dict(cfg))
             # compile a query naming it on the registering environment first (so that any cross-environment cache is primed) ...
-            arg = {"ident": "@.a", "isstr": "@.a", "seven": "", "cnt": "@.*", "any": "@.a"}[kind]
+            arg = {"ident": "@.a", "isstr": "@.a", "seven": "", "cnt": "@.*", "any": "@.a"}[kind.replace("_b", "")]
             text = "$[?%s(%s)%s]" % (name, arg, "" if rt == L else " == 7")
             o = mon.observe(env.compile, text)
             if o[0] != "ok":
@@ -321,6 +342,23 @@ class History:
                 self.compiled.append((o[1], text, i))
             # ... then every other environment must still refuse it and keep its registry
             self.check_others(i, text, before)
+            return
+        if r < 0.25 and any(cfg_["funcs"] for _, cfg_ in self.envs[1:]):
+            # an existing name re-registered with another function of the same signature: queries compiled before (applied
+            # already or not) and after must all call the function that is registered when they are evaluated
+            i = R.choice([k for k in range(1, len(self.envs)) if self.envs[k][1]["funcs"]])
+            env, cfg = self.envs[i]
+            name = R.choice(sorted(cfg["funcs"]))
+            kind = SIBLING[cfg["funcs"][name]]
+            p, rt = FUNC_KINDS[kind]
+            env.function_extensions[name] = mon.Probe(name, p, rt, func_impl(kind))
+            cfg = dict(cfg, funcs=dict(cfg["funcs"], **{name: kind}))
+            self.envs[i] = (env, cfg)
+            self.rec.feat("function-re-registered-under-the-same-name")
+            # evaluations of this environment that are suspended right now would legitimately see both functions: drop them
+            for item in [x for x in self.live if x[3] == i]:
+                self.live.remove(item)
+                self.pinned.discard(id(item[5]))
             return
         if r < 0.34:
             i = R.randrange(len(self.envs))
